@@ -89,7 +89,7 @@ def _seqs(tier):
 def jobs(tier):
     subs = [{'name': '.'.join(s), 'shape': {'ops': s}, 'params': _params(s)} for s in _seqs(tier)]
     return pack(subs, 48 if tier == 'quick' else 64, lambda s: 3.0 ** len(s['params']), 'c10-', weights='distinct',
-                timeout=170 if tier == 'quick' else 300)
+                timeout=240 if tier == 'quick' else 300)
 
 
 def bounds_text(tier):
